@@ -579,6 +579,9 @@ func (p *Parser) parseBuffer(buf []byte, last bool) (err error) {
 			if b == '-' {
 				p.num.NegExp = true
 			}
+			if 0 < len(p.num.BigBuf) { // a big number is kept as text, sign included
+				p.num.BigBuf = append(p.num.BigBuf, b)
+			}
 			continue
 		case expDigit:
 			p.num.AddExp(b)
